@@ -1,13 +1,13 @@
 SPECIFICATION MSpec
 CONSTANTS NW = 2
- MaxD = 3
+ MaxD = 2
  MaxS = 2
- MaxTag = 2
+ MaxTag = 1
  MaxObj = 1
- MaxL = 3
- Flags = {0, 1}
- YieldOpts = {2}
- Ops = {"create", "join", "yield"}
+ MaxL = 2
+ Flags = {0, 1, 2}
+ YieldOpts = {0}
+ Ops = {"create", "join", "tryjoin", "detach", "yield"}
 INVARIANT OK
 INVARIANT ExactlyOnePlace
 INVARIANT RunnableSaved
